@@ -1795,6 +1795,14 @@ class Interp:
         if isinstance(o, dict) and not isinstance(idx, (SV, SStr)):
             o[idx] = v
             return
+        if isinstance(o, list) and isinstance(idx, SV) and idx.is_int:
+            # a symbolic position in a list of concrete length: one path per position (and one for an index out of range)
+            n = len(o)
+            for k in range(n):
+                if self.ctx.branch(z3.Or(idx.t == k, idx.t == k - n)):
+                    o[k] = v
+                    return
+            self.fail("IndexError", "list assignment index out of range", node)
         if isinstance(o, list) and isinstance(idx, LibObj) and idx.kind == "slice" \
                 and all(idx.fields[k] is None or isinstance(idx.fields[k], int) for k in ("start", "stop", "step")):
             try:
